@@ -2,6 +2,7 @@ package main
 
 import (
 	"fmt"
+	"go/types"
 	"strings"
 
 	"golang.org/x/tools/go/ssa"
@@ -32,6 +33,49 @@ func runC32(c *Ctx) {
 		}
 		for _, want := range []string{"InsufficientCollateral", "NoCollateralInputs", "CollateralContainsNonAda", "TooManyCollateralInputs"} {
 			c.Check(has[want] != nil, "collateral-rule-listed", "ledger/"+era+":"+want, er.Pos, "rule is part of the era's list", "the "+era+" rule list has no "+want+" rule")
+		}
+		// "runs scripts" guards: a redeemer container that has its own Len() (because it keeps more than one
+		// representation) must be measured through it, never by len() of one of its fields
+		for _, want := range []string{"InsufficientCollateral", "NoCollateralInputs", "CollateralContainsNonAda", "TooManyCollateralInputs"} {
+			if has[want] == nil {
+				continue
+			}
+			nGuards := 0
+			for f := range c.staticClosure(has[want], 3) {
+				if f.Pkg == nil || !strings.Contains(f.Pkg.Pkg.Path(), "/ledger/") {
+					continue
+				}
+				for _, g := range withAnon(f) {
+					for _, ci := range allCalls(g) {
+						cc := ci.Common()
+						if b, ok := cc.Value.(*ssa.Builtin); ok && b.Name() == "len" {
+							owner, field := fieldOwner(cc.Args[0])
+							if owner == nil || !strings.HasSuffix(owner.Obj().Name(), "Redeemers") {
+								continue
+							}
+							nGuards++
+							hasLen := types.NewMethodSet(types.NewPointer(owner)).Lookup(owner.Obj().Pkg(), "Len") != nil
+							inOwn := recvTypeName(g) == owner.Obj().Name()
+							c.Check(!hasLen || inOwn, "redeemer-count-complete", "ledger/"+era+":"+ssaFuncKey(g)+":len("+owner.Obj().Name()+"."+field+")", ci.Pos(),
+								"the redeemer container has a single representation, so len of its field counts every redeemer",
+								"the rule measures len("+owner.Obj().Name()+"."+field+") although the type keeps several representations behind Len(): redeemers held in the other representation are not seen, so a script-running transaction skips the collateral rule")
+							continue
+						}
+						if cc.IsInvoke() && (cc.Method.Name() == "Iter" || cc.Method.Name() == "Len") && strings.HasSuffix(typeStr(cc.Value.Type()), "TransactionWitnessRedeemers") {
+							nGuards++
+							c.Ok("redeemer-count-complete", "ledger/"+era+":"+ssaFuncKey(g)+":TransactionWitnessRedeemers."+cc.Method.Name()+"()", ci.Pos(), "the redeemers are enumerated through the container's interface")
+							continue
+						}
+						if cal := cc.StaticCallee(); cal != nil && cal.Name() == "Len" && strings.HasSuffix(recvTypeName(cal), "Redeemers") {
+							nGuards++
+							c.Ok("redeemer-count-complete", "ledger/"+era+":"+ssaFuncKey(g)+":"+recvTypeName(cal)+".Len()", ci.Pos(), "the redeemer container is measured through its own Len()")
+						}
+					}
+				}
+			}
+			if want != "TooManyCollateralInputs" {
+				c.Check(nGuards > 0, "redeemer-guard-present", "ledger/"+era+":"+want, has[want].Pos(), "the rule looks at the redeemer count to decide whether scripts run", "the rule never looks at the redeemers: it cannot tell a script-running transaction from a plain one")
+			}
 		}
 		fn := has["InsufficientCollateral"]
 		if fn == nil {
@@ -96,4 +140,33 @@ func runC32(c *Ctx) {
 		}
 		c.Check(decided, "collateral-decision", key, fn.Pos(), "deciding comparison located", "no big.Int comparison decides acceptance in the collateral rule")
 	}
+}
+
+// fieldOwner returns the named struct type and field name when v is (a load of) a field selection.
+func fieldOwner(v ssa.Value) (*types.Named, string) {
+	if u, ok := v.(*ssa.UnOp); ok {
+		v = u.X
+	}
+	var base types.Type
+	var idx int
+	switch x := v.(type) {
+	case *ssa.FieldAddr:
+		base, idx = x.X.Type(), x.Field
+	case *ssa.Field:
+		base, idx = x.X.Type(), x.Field
+	default:
+		return nil, ""
+	}
+	if p, ok := base.Underlying().(*types.Pointer); ok {
+		base = p.Elem()
+	}
+	n, ok := base.(*types.Named)
+	if !ok {
+		return nil, ""
+	}
+	st, ok := n.Underlying().(*types.Struct)
+	if !ok {
+		return nil, ""
+	}
+	return n, st.Field(idx).Name()
 }
